@@ -163,7 +163,7 @@ var sizeGen = rapid.SampledFrom([]string{"tiny", "small", "small", "medium", "me
 
 // TestC09Readers: readers racing a sequence of saves only ever see complete snapshots.
 func TestC09Readers(t *testing.T) {
-	col := ev.Get("C09", "readers", "a saver goroutine (in 30% of the cases 2, 4 or 8 stores of the process saving concurrently, several times over) saves a generated sequence of 3-12 snapshots (size classes from 1 job to ~1500 jobs / several MB) with the real JsonDataStore (store file reached directly, through a data.json that is a symbolic link to a file elsewhere, or through a symlinked store directory; in a third of the cases TMPDIR points to another file system) while 2-6 reader goroutines alternate raw os.ReadFile+encoding/json and JsonDataStore.Load; every observation must be 'absent' (only before the first save returned) or decode completely to exactly one snapshot passed to Save (index + content hash), with index >= last save that had returned before the observation began and <= last save started; after the sequence Load returns exactly the last snapshot; in half of the cases a snapshot without jobs is saved last, by the same store or by a new one on the same directory, and must replace what was there; non-trivial = an observation that overlapped a save in progress; distinct by (seed,size,observation count)")
+	col := ev.Get("C09", "readers", "a saver goroutine (in 30% of the cases 2, 4 or 8 stores of the process saving concurrently, several times over - or goroutines sharing one store, each loading right after its save: it must not get a snapshot whose save had returned before its own began) saves a generated sequence of 3-12 snapshots (size classes from 1 job to ~1500 jobs / several MB) with the real JsonDataStore (store file reached directly, through a data.json that is a symbolic link to a file elsewhere, or through a symlinked store directory; in a third of the cases TMPDIR points to another file system) while 2-6 reader goroutines alternate raw os.ReadFile+encoding/json and JsonDataStore.Load; every observation must be 'absent' (only before the first save returned) or decode completely to exactly one snapshot passed to Save (index + content hash), with index >= last save that had returned before the observation began and <= last save started; after the sequence Load returns exactly the last snapshot; in half of the cases a snapshot without jobs is saved last, by the same store or by a new one on the same directory, and must replace what was there; non-trivial = an observation that overlapped a save in progress; distinct by (seed,size,observation count)")
 	rapid.Check(t, func(rt *rapid.T) {
 		seed := rapid.Int64Range(1, 1<<40).Draw(rt, "seed")
 		size := sizeGen.Draw(rt, "size")
@@ -265,6 +265,46 @@ func TestC09Readers(t *testing.T) {
 			// (2, 4 or 8 stores in this process, each saving its share of the snapshots several times over, so that
 			// encodings and writes of different stores keep overlapping)
 			nSavers := rapid.SampledFrom([]int{2, 2, 4, 8}).Draw(rt, "concurrentSavers")
+			// ... or one store used by several goroutines at once: each saves its share of the snapshots once and
+			// loads right after every save. What it loads may be its own snapshot or one whose save overlapped or
+			// followed - never one whose save had already returned before its own save began.
+			if rapid.Bool().Draw(rt, "oneSharedStore") {
+				beganAt := make([]int64, count)
+				endedAt := make([]int64, count)
+				t0 := time.Now()
+				shared := nSavers
+				if shared > count {
+					shared = count // (every snapshot is saved exactly once)
+				}
+				for s := 0; s < shared; s++ {
+					sw.Add(1)
+					go func(s int) {
+						defer sw.Done()
+						for i := s % count; i < count; i += shared {
+							atomic.StoreInt64(&beganAt[i], int64(time.Since(t0))+1)
+							if err := st.Save(snap.Make(seed, i, size)); err != nil {
+								fail("Save failed: " + strip(err, dir))
+								return
+							}
+							atomic.StoreInt64(&endedAt[i], int64(time.Since(t0))+1)
+							got, err := observe(dir, st, seed, size, true)
+							if err != nil {
+								fail(err.Error())
+								return
+							}
+							if got < 0 {
+								fail(fmt.Sprintf("the save of snapshot %d returned, the next load finds nothing", i))
+								return
+							}
+							if e := atomic.LoadInt64(&endedAt[got]); got != i && e != 0 && e < atomic.LoadInt64(&beganAt[i]) {
+								fail(fmt.Sprintf("the save of snapshot %d returned successfully, the next load returns snapshot %d, whose save had returned before that save began (several goroutines saving through one store)", i, got))
+								return
+							}
+						}
+					}(s)
+				}
+				nSavers = 0
+			}
 			for s := 0; s < nSavers; s++ {
 				sw.Add(1)
 				go func(s int) {
@@ -527,11 +567,14 @@ func TestC09Faults(t *testing.T) {
 			_ = outb
 			return
 		}
-		lastOK := -1
+		lastOK, lastBegin := -1, -1
+		done := strings.Contains(string(b), "\ndone\n") || strings.HasSuffix(strings.TrimSpace(string(b)), "done")
 		failed := 0
 		for _, ln := range strings.Split(strings.TrimSpace(string(b)), "\n") {
 			l := parseLine(ln)
 			switch l.kind {
+			case "begin":
+				lastBegin = l.idx
 			case "end":
 				lastOK = l.idx
 			case "error":
@@ -554,6 +597,13 @@ func TestC09Faults(t *testing.T) {
 			idx, err := observe(storeDir, st, seed, size, viaLoad)
 			if err != nil {
 				rt.Fatalf("after the child ended (%d failed saves, %s %s): %v", failed, sc, errno, err)
+			}
+			if !done && idx >= lastOK && idx <= lastBegin {
+				// The child did not reach its last line: the injected fault also hits writes of the Go runtime
+				// itself, and a runtime that cannot write dies where it stands - possibly between a save's
+				// rename and the report of its end. Then the store is judged like after a kill (correction 38).
+				col.Class("child-died-from-the-fault")
+				continue
 			}
 			if idx != lastOK {
 				rt.Fatalf("after the child ended the store holds snapshot %d, the last successful save was %d", idx, lastOK)
